@@ -131,6 +131,8 @@ def run(ctx):
         if m.get("ok") != exp:
             res.tie_break("obj.load_ssc (model loader on the real tokenizer's output)", case, "impl reload == notesLast(original)", str(m)[:400])
     c01.probe_findings(ctx, res, "ssc")
+    from adapters import msdcontract
+    msdcontract.validate(ctx, res)
     res.assumptions = ["msdparser is the trusted base; SafeDoc filter as in C01",
                        "object identity is invisible to the model: the harness assigns one Python string object to several properties so that any identity-dependence of the impl shows up as a disagreement"]
     return res
